@@ -53,6 +53,7 @@ Mon0 == [ np     |-> 0,       \* probes created so far
           tdelay |-> <<>>,    \* C19: per scheduled task <<handle, kind, delay or period, time it was scheduled>> (task id = position)
           truns  |-> <<>>,    \* C19: task id -> how often its body ran
           tsince |-> -1,      \* C16: virtual time at which the (first) subscriber saw its terminal (-1: not yet)
+          trun   |-> -1,      \* C16: time of the first run of the executor after that (-1: not yet)
           runT   |-> <<>>,    \* virtual times at which the executor ran to idle ("runall")
           g      |-> <<>>,    \* global timeline <<a, t, v>> of the notifications sent into the hot inputs
           unsubd |-> <<>>,    \* handle -> unsubscribe() has returned (or it was torn down by its composite)
@@ -202,6 +203,10 @@ GroupCheck(m, C) ==
      (* flattening the groups back reproduces the source sequence *)
      /\ (x > 0 /\ Op(x) = "flat" /\ Op(S1(x)) = "group_by" /\ PA(x) = 999) =>
         GetS(m.plog, p) = MsgsOf(Ref(S1(S1(x)), m.g, m.h0[h], hi, {}))
+
+(* the delays configured along a single-input chain *)
+RECURSIVE DelaySum(_)
+DelaySum(x) == IF x = 0 THEN 0 ELSE (IF Op(x) = "delay" THEN PA(x) ELSE 0) + DelaySum(S1(x))
 
 (* the source at the bottom of a single-input chain; does the chain contain operator o *)
 RECURSIVE BottomOf(_), NumOp(_, _)
@@ -491,8 +496,14 @@ MonStep(m0, step, C) ==
       (* (iterator sources: see LogOne, no pull after the terminal)                                            *)
       term1 == GetB(r10b.term, 1)
       ts == IF m.tsince >= 0 THEN m.tsince ELSE IF term1 THEN r10b.now ELSE -1
-      r10c == [Flag(r10b, o.fault = "" /\ s.k = "runall" /\ m.tsince >= 0 /\ r10b.now >= m.tsince + 1 /\ o.live # 0, "C16", checks)
-               EXCEPT !.tsince = ts]
+      (* (deliveries that a delay operator of the chain had already scheduled are tasks too; the timer of a one-shot task is   *)
+      (* armed when the task is first polled: such chains are given their delay, counted from the first run of the executor   *)
+      (* at or after the terminal)                                                                                              *)
+      dsum == IF r10b.nh >= 1 /\ r10b.hroot[1] > 0 THEN DelaySum(r10b.hroot[1]) ELSE 0
+      due == IF dsum = 0 THEN m.tsince >= 0 /\ r10b.now >= m.tsince + 1
+             ELSE m.trun >= 0 /\ r10b.now >= m.trun + dsum
+      r10c == [Flag(r10b, o.fault = "" /\ s.k = "runall" /\ due /\ o.live # 0, "C16", checks)
+               EXCEPT !.tsince = ts, !.trun = IF m.trun < 0 /\ s.k = "runall" /\ ts >= 0 THEN r10b.now ELSE m.trun]
       (* C14: conversions report the real outcome and do not stay pending once the source has terminated *)
       is14 == "C14" \in checks /\ o.fault = "" /\ s.k \in {"fpoll", "stq"}
       h14 == IF s.k = "fpoll" THEN r10c.rh[s.a] ELSE 1
